@@ -223,7 +223,7 @@ def write_entropy_image(bw, rng, width, height, style, green_max=255, red_syms=N
     else:
         bw.put(0, 1)
     cache_len = (1 << cache_bits) if cache_bits else 0
-    deep = style in ("deep", "extrabits", "arbdeep", "extradeep") or rng.random() < 0.3
+    deep = style in ("deep", "extrabits", "arbdeep", "extradeep", "onedist") or rng.random() < 0.3
     maxlen = 15 if deep else rng.choice([3, 5, 8, 11, 15])
 
     def pick(lo, hi, kmax):
@@ -246,6 +246,17 @@ def write_entropy_image(bw, rng, width, height, style, green_max=255, red_syms=N
         lens_syms = [256 + 22, 256 + 23]
         csyms = []
         dsyms = sorted(set([1, 38, 39] + ([rng.randint(0, 39)] if rng.random() < .5 else [])))
+        rs, bs, as_ = [rng.randint(0, 255)], [rng.randint(0, 255)], [rng.randint(0, 255)]
+        if red_syms is not None:
+            rs = red_syms
+    elif style == "onedist":
+        # a SINGLE-symbol (zero-bit) distance code whose symbol carries 7..13 extra bits, single-symbol red/blue/alpha codes, a small
+        # green code with the 10-extra-bit length symbols: a back-reference still needs green + 10 + 0 + extra bits of read-ahead
+        # although no distance CODE bits are read
+        lit = rng.sample(range(0, green_max + 1), min(green_max + 1, rng.choice([1, 2, 3])))
+        lens_syms = sorted(set([256 + rng.choice([20, 21, 22, 23]), 256 + rng.choice([0, 1, 22, 23])]))
+        csyms = []
+        dsyms = [rng.choice([16, 17, 20, 21, 24, 25, 28])]
         rs, bs, as_ = [rng.randint(0, 255)], [rng.randint(0, 255)], [rng.randint(0, 255)]
         if red_syms is not None:
             rs = red_syms
@@ -284,7 +295,7 @@ def write_entropy_image(bw, rng, width, height, style, green_max=255, red_syms=N
     dlen = max(len(c) for c in D.values()) if len(D) > 1 else 0
     readahead = glen + max(arb, glen + 36 + dlen)
     idx, npx_tokens, max_iter_bits = 0, 0, 0
-    w_back = {"extrabits": 0.85, "extradeep": 0.85, "arbdeep": 0.02}.get(style, rng.choice([0.0, 0.1, 0.4, 0.8]))
+    w_back = {"extrabits": 0.85, "extradeep": 0.85, "onedist": 0.7, "arbdeep": 0.02}.get(style, rng.choice([0.0, 0.1, 0.4, 0.8]))
     while idx < n:
         start = len(bw.bits)
         kind = "lit"
@@ -357,14 +368,14 @@ def build_lossless(rng, style="plain", pixel_budget=3000):
     """A stream for LosslessImage::read(width, height): returns (width, height, bytes, facts)."""
     facts = {"style": style, "images": []}
     bw = BW()
-    if style in ("extrabits", "extradeep"):
+    if style in ("extrabits", "extradeep", "onedist"):
         # one predictor sub-image with up to a million pixels, filled by long back-references with many extra bits
         W = H = rng.choice([2048, 4096, 4096]) if style == "extrabits" else 4096
         bw.put(1, 1)
         bw.put(0 if style == "extrabits" else rng.choice([0, 1]), 2)
         bw.put(0, 3)
         facts["images"].append(write_entropy_image(bw, rng, ceil_div(W, 4), ceil_div(H, 4), style,
-                                                   green_max=13 if style == "extrabits" else 255, cache_bits=0))
+                                                   green_max=13 if style in ("extrabits", "onedist") else 255, cache_bits=0))
         width = W
     else:
         W, H = rng.randint(1, 300), rng.randint(1, 300)
@@ -402,7 +413,7 @@ def build_lossless(rng, style="plain", pixel_budget=3000):
         bw.put(0, 1)
     cache_len = (1 << cache_bits) if cache_bits else 0
     groups = 1
-    if style not in ("extrabits", "extradeep") and rng.random() < 0.4:
+    if style not in ("extrabits", "extradeep", "onedist") and rng.random() < 0.4:
         bw.put(1, 1)
         opts = [b for b in range(8) if ceil_div(width, 1 << (b + 2)) * ceil_div(H, 1 << (b + 2)) <= pixel_budget]
         b = rng.choice(opts) if opts else 7
